@@ -25,6 +25,7 @@ const (
 	mMalA    = "malformed"      // answer text is not JSON
 	mMalB    = "odd-result"     // JSON, but the result is not an initialize result (outcome left open)
 	mDown    = "down"           // connection refused / reset; stdio: the child exits without answering
+	mFault   = "fault"          // healthy server with ONE fault injected at step Step.At of the handshake (faults.go)
 )
 
 // Step is one element of a client call history.
@@ -33,11 +34,16 @@ type Step struct {
 	Op   string `json:"op,omitempty"`   // operation name for k=op
 	Mode string `json:"mode,omitempty"` // server behaviour for k=init
 	Var  int    `json:"var,omitempty"`  // answer-shape variant
+	At    string `json:"at,omitempty"`    // mode=fault: the step of the handshake at which the fault is injected
+	Fault string `json:"fault,omitempty"` // mode=fault: the kind of fault
 }
 
 func (s Step) String() string {
 	switch s.Kind {
 	case "init":
+		if s.Mode == mFault {
+			return fmt.Sprintf("Initialize[fault at=%s kind=%s/%d]", s.At, s.Fault, s.Var)
+		}
 		return fmt.Sprintf("Initialize[%s/%d]", s.Mode, s.Var)
 	case "op":
 		return s.Op
@@ -69,6 +75,7 @@ type StepObs struct {
 	Wire   []string `json:"wire,omitempty"`  // their summaries
 	State  string   `json:"state"`           // GetState() after the step
 	Note   string   `json:"note,omitempty"`  // recorder remarks
+	Fired  int      `json:"fired,omitempty"` // mode=fault: how often the planned fault was actually applied during the step
 	Unsure bool     `json:"unsure,omitempty"` // the recorder could not establish the wire count (watchdog)
 	Ms     int64    `json:"ms,omitempty"`     // wall time of the step incl. wire accounting (information only)
 }
@@ -139,6 +146,17 @@ func fixedHistories(client string) []History {
 	add("server-dies-then-calls", false, []Step{initStep(mHealthy, 0), stDie, opStep("ListTools"), opStep("SendRootsListChangedNotification"), initStep(mHealthy, 0), stGet, stClose, stGet, opStep("ListTools"), opStep("CallTool"), stClose, stGet})
 	add("server-dies-before-handshake", false, []Step{stDie, stGet, opStep("ListTools"), initStep(mHealthy, 0), stGet, stClose, stGet, opStep("ListPrompts")})
 	add("server-dies-after-failed-handshake", false, []Step{initStep(mError, 0), stDie, stGet, opStep("ListTools"), stClose, stGet, opStep("ReadResource")})
+	// a fault at every step of the handshake while the earlier steps succeed (faults.go)
+	for _, fc := range faultCells(client) {
+		for v := 0; v < 4; v += 2 { // Streamable: initialize answered as JSON body (0) / as event stream (2)
+			if v > 0 && client != ckStreamable {
+				continue
+			}
+			getSSE := fc.At == atGet
+			add(fmt.Sprintf("fault-%s-%s-%d", fc.At, fc.Fault, v), getSSE, cat([]Step{faultStep(fc, v), stGet}, allOpSteps(),
+				[]Step{stGet, initStep(mHealthy, 0), stGet, opStep("ListTools"), opStep("SendRootsListChangedNotification"), initStep(mHealthy, 0), stClose, stGet, opStep("CallTool")}))
+		}
+	}
 	if client == ckStreamable {
 		add("stateless-server", false, cat([]Step{initStep(mNoSess, 0), stGet}, allOpSteps(), []Step{initStep(mNoSess, 0), stClose}, allOpSteps()))
 	}
@@ -156,6 +174,7 @@ func genHistories(rng *rand.Rand, client string, n int) []History {
 		f func() Step
 	}
 	modes := []string{mError, mMalA, mMalB, mDown}
+	cells := faultCells(client)
 	table := []wstep{
 		{4.0, func() Step {
 			if client == ckStreamable && rng.Intn(5) == 0 {
@@ -164,6 +183,7 @@ func genHistories(rng *rand.Rand, client string, n int) []History {
 			return initStep(mHealthy, rng.Intn(4))
 		}},
 		{3.0, func() Step { return initStep(modes[rng.Intn(len(modes))], rng.Intn(4)) }},
+		{3.0, func() Step { return faultStep(cells[rng.Intn(len(cells))], rng.Intn(4)) }},
 		{7.0, func() Step { return opStep(allOps[rng.Intn(len(allOps))]) }},
 		{1.0, func() Step { return stGet }},
 		{1.5, func() Step { return stClose }},
@@ -195,6 +215,14 @@ func genHistories(rng *rand.Rand, client string, n int) []History {
 				continue
 			}
 			h.Steps = append(h.Steps, pick())
+		}
+		if client == ckStreamable && !h.GetSSE {
+			// a fault at the listening-stream step needs the listening stream
+			for _, st := range h.Steps {
+				if st.Mode == mFault && st.At == atGet {
+					h.GetSSE = true
+				}
+			}
 		}
 		hs = append(hs, h)
 	}
